@@ -189,6 +189,55 @@ def laws():
         res += [canon((a - b).doit()) for a, b in zip(comps(O.curl_operator(fld)), want_curl)]
         return Case(res)
 
+    # ---------------------------------------------------------------- components that do NOT depend on every coordinate
+    # The textbook formulas below are first validated against the real operators on fully generic fields (which the laws above
+    # prove equal to the Cartesian operators in the local basis), then the real operators are held to them on fields whose
+    # components are constants, depend only on their own coordinate, or only on the other two -- the cases a generic function of all
+    # three coordinates cannot reach (a code path that tests `component.has(variable)` / differentiates conditionally).
+    def textbook(kind, A, q):
+        A = pad3(A)
+        if kind == "cyl":
+            r, t, z = q
+            div = sp.diff(r * A[0], r) / r + sp.diff(A[1], t) / r + sp.diff(A[2], z)
+            curl = [sp.diff(A[2], t) / r - sp.diff(A[1], z), sp.diff(A[0], z) - sp.diff(A[2], r), (sp.diff(r * A[1], r) - sp.diff(A[0], t)) / r]
+        else:
+            r, t, p = q  # components ordered (r, theta=azimuth, phi=polar); right-handed frame (r, phi, theta)
+            div = sp.diff(r**2 * A[0], r) / r**2 + sp.diff(A[1], t) / (r * sin(p)) + sp.diff(sin(p) * A[2], p) / (r * sin(p))
+            curl_r = (sp.diff(sin(p) * A[1], p) - sp.diff(A[2], t)) / (r * sin(p))
+            curl_p = (sp.diff(A[0], t) / sin(p) - sp.diff(r * A[1], r)) / r
+            curl_t = (sp.diff(r * A[2], r) - sp.diff(A[0], p)) / r
+            curl = [curl_r, curl_t, curl_p]
+        return div, curl
+
+    DEP = ["all", "const", "own", "others", "mixed"]
+
+    def dep_components(g, q, n, dep):
+        out_ = []
+        for i in range(n):
+            d = dep if dep != "mixed" else ("const", "others", "own")[i]
+            if d == "all":
+                out_.append(g.fun(f"A{i}", q))
+            elif d == "const":
+                out_.append(g.sym(f"c{i}"))
+            elif d == "own":
+                out_.append(g.fun(f"A{i}", [q[i]]))
+            else:
+                out_.append(g.fun(f"A{i}", [x for j, x in enumerate(q) if j != i]))
+        return out_
+
+    @law("divergence_operator,curl_operator/equal-the-textbook-formulas-also-for-components-independent-of-some-coordinates",
+         [(k, n, d) for k in ("cyl", "sph") for n in (1, 2, 3) for d in DEP],
+         ["operators.divergence_operator", "operators.curl_operator"])
+    def _(s, g):
+        cur = CS(kinds[s[0]])
+        q = list(cur.coord_system.base_scalars())
+        A = dep_components(g, q, s[1], s[2])
+        fld = VectorField(A, cur)
+        div_w, curl_w = textbook(s[0], A, q)
+        res = [canon((O.divergence_operator(fld) - div_w).doit())]
+        res += [canon((a - b).doit()) for a, b in zip(comps(O.curl_operator(fld)), curl_w)]
+        return Case(res)
+
     return out
 
 
